@@ -166,7 +166,7 @@ Definition run (fn : Z) (i : tree) : tree :=
   | 2 => tree_of_outcome tree_of_value (dec_value (t_int (t_nth 0 i)) (t_bytes (t_nth 1 i)))
   | 3 => let t := t_int i in TL [TI (bytesize t); TI (lengthbytes t); TI (reflkind t); TB (tname t)]
   | 4 => run_helper i
-  | 9 => TL [TI 25920000; TI 0]
+  | 9 => TL [t_nth 1 i; TI 0]
   | _ => tbad
   end.
 
